@@ -896,20 +896,11 @@ Lemma hb_sequence st s ms : crashed s = false -> 0 <= hage s -> 0 <= ms ->
   (ms < 5000 -> hlast s = true -> hready s = true -> hready s' = true).
 Proof.
   intros Cr H Hs.
-  assert (C1 : crashed (step true true true st s (EHb false)) = false) by (unfold step; rewrite Cr; exact Cr).
-  assert (L1 : hlast (step true true true st s (EHb false)) = false) by (unfold step; rewrite Cr; reflexivity).
-  assert (A1 : 0 <= hage (step true true true st s (EHb false))) by (apply hage_step; assumption).
-  assert (R1 : hlast s = true -> hready s = true ->
-               hready (step true true true st s (EHb false)) = true /\ hage (step true true true st s (EHb false)) = 0).
-  { intros L R. unfold step. rewrite Cr. unfold heartbeat. simpl. rewrite L, R. simpl. auto. }
-  set (s1 := step true true true st s (EHb false)) in *.
-  simpl. unfold step at 2. rewrite C1.
-  unfold step. simpl. unfold heartbeat. simpl. rewrite L1. simpl.
-  destruct (ms <? 0) eqn:E; [lia|]. split.
-  - intros Hm. destruct (hready s1); simpl; [|reflexivity].
-    destruct (5000 <=? hage s1 + ms) eqn:E2; [reflexivity|lia].
-  - intros Hm L R. destruct (R1 L R) as [R' A']. rewrite R', A'. simpl.
-    destruct (5000 <=? 0 + ms) eqn:E2; [lia|reflexivity].
+  assert (E1 : step true true true st s (EHb false) = heartbeat s false) by (unfold step; rewrite Cr; reflexivity).
+  rewrite E1. unfold step. simpl. rewrite Cr. simpl. unfold heartbeat. simpl.
+  destruct (ms <? 0) eqn:E; [lia|].
+  destruct (hlast s), (hready s); simpl; split; intros; try reflexivity; try discriminate;
+    repeat match goal with |- context [?x <=? ?y] => destruct (x <=? y) eqn:? end; try reflexivity; lia.
 Qed.
 
 Lemma Forall_app_ok ops ops' : Forall ev_ok ops -> Forall ev_ok ops' -> Forall ev_ok (ops ++ ops').
@@ -976,3 +967,129 @@ Proof. intros I1 R Ri E. unfold step. rewrite I1, R, Ri, E. reflexivity. Qed.
 
 Lemma rem_present maxrt s w : Inv maxrt s -> rem s = Some w -> present s = true.
 Proof. intros (_ & _ & Ip & _) R. destruct (present s); [reflexivity|]. rewrite (Ip eq_refl) in R. discriminate. Qed.
+
+(* a global-count error reply on an available wrapper synced from the schema's own global section:
+   the limiter falls back to max(observed, local) within the global limit — never below the local limit *)
+Lemma failing_bounds st str0 ops mx rate rt w i : valid_cfg (cfg st) -> Forall ev_ok ops ->
+  let s := run true true true st (init (cfg st) str0) ops in let c := scfg s in
+  rem s = Some w -> rin w = Some i -> iw i <> WEmpty -> iun i = false ->
+  (0 <? rt) && (rt <=? ilast i) = false ->
+  rcfg w = Some {| idet := global_detail c; istr := SCount |} ->
+  exists i', rem (step true true true st s (ECount (RErr mx rate) rt)) = Some {| rin := Some i'; rcfg := rcfg w |} /\
+             iun i' = true /\
+             match ck c with
+             | KMI => exists n, il i' = LMI n /\ l1 c <= n <= g1 c
+             | KTB => exists q b, il i' = LTB q b /\ l1 c <= q <= g1 c /\ 0 <= b <= g2 c
+             end.
+Proof.
+  intros V Ev s c Rm Ri W U F Rc. destruct (reach_inv st str0 ops V Ev) as (m & _ & I). fold s in I.
+  pose proof I as (I1 & Vs & _ & _ & I3). fold c in Vs. rewrite Rm in I3. unfold wrap_ok in I3. rewrite Ri in I3. fold c in I3.
+  destruct I3 as (it & Rc' & Hit & Hi). rewrite Rc in Rc'. inversion Rc'; subst it; clear Rc'.
+  pose proof Hi as Hi0. unfold inner_ok in Hi0. unfold global_detail in *.
+  destruct (iw i) eqn:Wi; [congruence| |].
+  - destruct Hi0 as (_ & K & _). rewrite K in *.
+    destruct (set_limit_mi_err c m i _ (g1 c) mx rate rt Vs Hit ltac:(rewrite K; exact Hi) Wi U F eq_refl) as (i' & E & _ & U' & L').
+    exists i'. rewrite (count_state st s w i i' _ rt I1 Rm Ri E). simpl.
+    split; [reflexivity|]. split; [assumption|]. eexists. split; [exact L'|].
+    unfold valid_cfg in Vs. rewrite K in Vs. unfold zmin, zmax. zcases; lia.
+  - destruct Hi0 as (_ & K & _). rewrite K in *.
+    destruct (set_limit_tb_err c m i _ (g1 c) (g2 c) mx rate rt Vs Hit ltac:(rewrite K; exact Hi) Wi U eq_refl) as (i' & E & _ & U' & L').
+    exists i'. rewrite (count_state st s w i i' _ rt I1 Rm Ri E). simpl.
+    split; [reflexivity|]. split; [assumption|]. eexists. eexists. split; [exact L'|].
+    unfold valid_cfg in Vs. rewrite K in Vs. unfold zmin, zmax. zcases; lia.
+Qed.
+
+(* a server quota of the schema's type (or carrying both members) becomes the limiter's size, bounded by
+   the global limit, and is what a request meets as soon as the server is ready *)
+Lemma recovery_allocate st str0 ops it l : valid_cfg (cfg st) -> Forall ev_ok ops ->
+  let s := run true true true st (init (cfg st) str0) ops in let c := scfg s in
+  present s = true ->
+  md st = MRemote -> cs st = CSOk -> hready s = true -> enable_global (sstr s) = true ->
+  istr it <> SCount -> granted c (idet it) = Some l ->
+  let s' := step true true true st s (EQuota it) in
+  o_sel (observe true st s') = SelRemote /\ o_lim (observe true st s') = Some l /\ remote_lim s' = Some l.
+Proof.
+  intros V Ev s c P M Cs R G S Gr s'. destruct (reach_inv st str0 ops V Ev) as (m & Hm & I). fold s in I.
+  pose proof (step_inv st m s (EQuota it) Hm Logic.I I) as I'. fold s' in I'. simpl in I'.
+  pose proof (recovery_holds st m s (EQuota it) Hm Logic.I I) as H. fold s' c in H.
+  unfold recovery_ok in H. destruct (observe_rem_eq st _ _ I') as [Er Ep]. rewrite Ep in H.
+  assert (G' : global_strategy (sstr s) = true) by (destruct (sstr s); auto).
+  rewrite P, G' in H.
+  assert (S' : strategy_eqb (istr it) SCount = false).
+  { destruct (strategy_eqb (istr it) SCount) eqn:X; [|reflexivity]. apply strategy_eqb_eq in X. contradiction. }
+  rewrite S', Gr in H. simpl in H. apply andb_true_iff in H. destruct H as [H1 H2].
+  unfold inner_is, rlim_is, rem_of in *. rewrite Er in *. unfold observe_rem in *.
+  destruct (rem s') as [w'|] eqn:Rm'; [|discriminate].
+  destruct (rin w') as [i'|] eqn:Ri'; [|discriminate]. simpl in *.
+  apply lim_eqb_eq in H2.
+  destruct (step_proj st s (EQuota it) ltac:(destruct I as (I1 & _); exact I1)) as (P' & _ & Ss). fold s' in P', Ss. simpl in P', Ss.
+  assert (Hr : hready s' = hready s).
+  { subst s'. unfold step. destruct I as (I1 & _). rewrite I1, P, G. simpl. unfold apply_sync. destruct (rw_sync _ _ _ _ _); reflexivity. }
+  destruct (observe_selected st m s' w' i' I' ltac:(congruence) M Cs ltac:(congruence) ltac:(congruence) Rm' Ri') as [A B].
+  split; [assumption|]. split; [congruence|]. unfold remote_lim. rewrite Rm', Ri'. congruence.
+Qed.
+
+(* an accepted global-count reply that is not stale ends the unavailable state; the granted limit,
+   raised to the burst reserve and bounded by the granted maximum, is the size (token bucket: the
+   configured global rate is restored) and it is what a request meets when the server is ready *)
+Lemma recovery_count st str0 ops limit rt w i it : valid_cfg (cfg st) -> Forall ev_ok ops ->
+  let s := run true true true st (init (cfg st) str0) ops in
+  rem s = Some w -> rin w = Some i -> iw i <> WEmpty -> rcfg w = Some it ->
+  (0 <? rt) && (rt <=? ilast i) = false ->
+  let s' := step true true true st s (ECount (ROk true limit) rt) in
+  exists i', rem s' = Some {| rin := Some i'; rcfg := Some it |} /\ iun i' = false /\
+             match idet it with
+             | DMI m => il i' = LMI (zmin (zmax limit (reserve_of true m)) m)
+             | DTB q b => il i' = LTB q b
+             | _ => False
+             end /\
+             (md st = MRemote -> cs st = CSOk -> hready s = true -> enable_global (sstr s) = true ->
+              o_sel (observe true st s') = SelRemote /\ o_lim (observe true st s') = Some (il i')).
+Proof.
+  intros V Ev s Rm Ri W Rc F s'. destruct (reach_inv st str0 ops V Ev) as (m & Hm & I). fold s in I.
+  pose proof (step_inv st m s (ECount (ROk true limit) rt) Hm Logic.I I) as I'. fold s' in I'.
+  pose proof (rem_present m s w I Rm) as P.
+  pose proof I as (I1 & Vs & _ & _ & I3). rewrite Rm in I3. unfold wrap_ok in I3. rewrite Ri in I3.
+  destruct I3 as (it' & Rc' & Hit & Hi). rewrite Rc in Rc'. inversion Rc'; subst it'; clear Rc'.
+  assert (Sel : forall i', s' = set_rem s (Some {| rin := Some i'; rcfg := rcfg w |}) ->
+                md st = MRemote -> cs st = CSOk -> hready s = true -> enable_global (sstr s) = true ->
+                o_sel (observe true st s') = SelRemote /\ o_lim (observe true st s') = Some (il i')).
+  { intros i' E M Cs R G.
+    apply (observe_selected st _ s' {| rin := Some i'; rcfg := rcfg w |} i' I'); try rewrite E; simpl; auto. }
+  pose proof Hi as Hi0. unfold inner_ok in Hi0.
+  destruct (iw i) eqn:Wi; [congruence| |].
+  - destruct Hi0 as (_ & _ & mm & n & D & _).
+    destruct (set_limit_mi_accept (scfg s) m i it mm limit rt Vs Hit Hi Wi F D) as (i' & E & _ & U' & _ & L').
+    pose proof (count_state st s w i i' _ rt I1 Rm Ri E) as St. fold s' in St.
+    exists i'. split; [rewrite St; simpl; rewrite Rc; reflexivity|]. split; [assumption|].
+    split; [rewrite D; assumption|]. apply Sel; assumption.
+  - destruct Hi0 as (_ & _ & _ & q & b & q' & b' & D & _).
+    destruct (set_limit_tb_accept (scfg s) m i it q b limit rt Vs Hit Hi Wi D) as (i' & E & _ & U' & L').
+    pose proof (count_state st s w i i' _ rt I1 Rm Ri E) as St. fold s' in St.
+    exists i'. split; [rewrite St; simpl; rewrite Rc; reflexivity|]. split; [assumption|].
+    split; [rewrite D; assumption|]. apply Sel; assumption.
+Qed.
+
+(* a schema update — other limits, another strategy, another TYPE, or the name added again — takes effect
+   at once: right after it, the limiter a request meets and the remote limiter are of the new type and
+   within the new limits; no window until the next answer of the limiter server *)
+Lemma schema_update_bounds st str0 ops k x a b g h : valid_cfg (cfg st) -> Forall ev_ok ops ->
+  let c' := {| ck := k; l1 := a; l2 := b; g1 := g; g2 := h |} in
+  valid_cfg c' ->
+  let s' := run true true true st (init (cfg st) str0) (ops ++ [ESchema k x a b g h]) in
+  present s' = true /\ scfg s' = c' /\ sstr s' = x /\
+  (exists l, o_lim (observe true st s') = Some l /\ lim_bounded c' l = true) /\
+  (forall l, remote_lim s' = Some l -> lim_bounded c' l = true).
+Proof.
+  intros V Ev c' V' s'.
+  assert (Ev' : Forall ev_ok (ops ++ [ESchema k x a b g h])).
+  { apply Forall_app_ok; [assumption|]. constructor; [exact V'|constructor]. }
+  destruct (reach_inv st str0 _ V Ev') as (m & _ & I). fold s' in I.
+  assert (C : present s' = true /\ scfg s' = c' /\ sstr s' = x).
+  { subst s'. rewrite run_app. simpl.
+    destruct (reach_inv st str0 ops V Ev) as (m0 & _ & (I1 & _)).
+    destruct (step_proj st _ (ESchema k x a b g h) I1) as (A & B & C). simpl in A, B, C. auto. }
+  destruct C as (P & C & S). repeat split; auto; rewrite <- C.
+  - destruct (enforced_bounded st m s' I P) as (l & L & B & _). exists l. auto.
+  - intros l R. eapply remote_bounded; eauto.
+Qed.
